@@ -143,7 +143,7 @@ def run_traces(chk, exe, judge, names):
 # ---------------------------------------------------------------------------------------------------------------------
 def classify(rec, leakinfo):
     kinds = []
-    if rec.get("leak", "0") != "0":
+    if rec.get("leak", "0") not in ("0",) and not rec.get("leak", "0").startswith("-"):      # a negative delta only follows an earlier leak
         li = leakinfo.get(rec.get("k"), {})
         if li.get("blocks") not in (None, "0") and li.get("mpqinit") == li.get("blocks"): kinds.append("leak-gmpxx-mpq")
         else: kinds.append("leak")
